@@ -97,6 +97,8 @@ pub struct Resolver<'ast, 'res> {
     // function's own parameters and the variables its body declares. They are not in
     // scope yet, and a same-named variable of an enclosing scope is a different one.
     signature_shadow: Vec<&'ast str, &'res Arena>,
+    // ... and the functions its body defines (they shadow outer functions of the same name).
+    signature_shadow_functions: Vec<&'ast str, &'res Arena>,
 
     // Stack of function symbol tables for block-scoped functions
     function_scopes: Vec<Vec<FunctionSig<'ast>, &'res Arena>, &'res Arena>,
@@ -141,6 +143,7 @@ impl<'ast, 'res> Resolver<'ast, 'res> {
         Self {
             variable_scopes: Vec::new_in(arena),
             signature_shadow: Vec::new_in(arena),
+            signature_shadow_functions: Vec::new_in(arena),
             function_scopes: Vec::new_in(arena),
             current_function: None,
             current_owner: FunctionId(0),
@@ -247,7 +250,12 @@ impl<'ast, 'res> Resolver<'ast, 'res> {
 
                 self.check_expr(expr);
                 self.set_stmt_expr_class(self.classify_expr(expr));
-                let var_type = self.infer_expr_type(expr).unwrap_or(ValueType::Dynamic);
+                // `make x` / `make x get null` declares a variable without a type: whatever
+                // it is given later decides what can be done with it.
+                let var_type = match self.infer_expr_type(expr) {
+                    Some(ValueType::Null) | None => ValueType::Dynamic,
+                    Some(var_type) => var_type,
+                };
                 let current_scope = self
                     .variable_scopes
                     .last()
@@ -614,10 +622,24 @@ impl<'ast, 'res> Resolver<'ast, 'res> {
             let mut changed = false;
             for pending_def in &pending {
                 self.signature_shadow.clear();
+                self.signature_shadow_functions.clear();
                 self.signature_shadow.extend(pending_def.params.params.iter().copied());
                 Self::collect_declared_names(pending_def.body, &mut self.signature_shadow);
+                Self::collect_nested_function_names(
+                    pending_def.body,
+                    &mut self.signature_shadow_functions,
+                );
+                // The variables of the defining block are not in scope yet either (none of its
+                // statements has been checked): an outer variable of the same name is not
+                // the one the function will see.
+                for stmt in block.stmts {
+                    if let Stmt::Assign { var, .. } = stmt {
+                        self.signature_shadow.push(var);
+                    }
+                }
                 let return_type = self.infer_function_return_type(pending_def.body);
                 self.signature_shadow.clear();
+                self.signature_shadow_functions.clear();
                 let current_scope = self
                     .function_scopes
                     .last_mut()
@@ -1474,6 +1496,8 @@ impl<'ast, 'res> Resolver<'ast, 'res> {
                 Expr::Var(func_name, ..) => {
                     if let Some(builtin) = GlobalBuiltin::from_name(func_name) {
                         Some(builtin.return_type())
+                    } else if self.signature_shadow_functions.contains(func_name) {
+                        Some(ValueType::Dynamic)
                     } else {
                         self.lookup_func(func_name).map(|func_sig| func_sig.return_type)
                     }
@@ -1514,6 +1538,10 @@ impl<'ast, 'res> Resolver<'ast, 'res> {
     fn infer_function_return_type(&self, body: BlockRef<'ast>) -> ValueType {
         let mut return_types = Vec::new_in(self.arena);
         self.collect_return_types(body, &mut return_types);
+        // A body that does not end in `return` can fall off its end, which returns null.
+        if !matches!(body.stmts.last(), Some(Stmt::Return { .. })) {
+            return_types.push(ValueType::Null);
+        }
 
         if return_types.is_empty() {
             return ValueType::Null;
@@ -1536,6 +1564,27 @@ impl<'ast, 'res> Resolver<'ast, 'res> {
                 }
                 Stmt::Loop { body, .. } => Self::collect_declared_names(body, names),
                 Stmt::Block { block, .. } => Self::collect_declared_names(block, names),
+                _ => {}
+            }
+        }
+    }
+
+    // Names of the functions defined in `block`, nested function bodies excluded.
+    fn collect_nested_function_names(
+        block: BlockRef<'ast>,
+        names: &mut Vec<&'ast str, &'res Arena>,
+    ) {
+        for stmt in block.stmts {
+            match stmt {
+                Stmt::FunctionDef { name, .. } => names.push(name),
+                Stmt::If { then_b, else_b, .. } => {
+                    Self::collect_nested_function_names(then_b, names);
+                    if let Some(else_b) = else_b {
+                        Self::collect_nested_function_names(else_b, names);
+                    }
+                }
+                Stmt::Loop { body, .. } => Self::collect_nested_function_names(body, names),
+                Stmt::Block { block, .. } => Self::collect_nested_function_names(block, names),
                 _ => {}
             }
         }
